@@ -312,23 +312,27 @@ def _impl(stream, line):
         return _with_file(kind, data, run_ppa)
     if op in PE_OPS:
         kind, data = w[1], C.unhx(w[2])
+        # the handle stands at 0: `start_offset=None` ("search from the current position", documented) must answer exactly as the
+        # default 0 does (C18.pe_start_none_is_tell) - passed in half of the cases, chosen from the case line
+        import zlib as _zlib
+        so = {"start_offset": None} if _zlib.crc32(line.encode()) % 2 else {}
 
         def run(fh):
             if op == "mz":
-                return "ok " + oi(pe.find_mz_offset(fh))
+                return "ok " + oi(pe.find_mz_offset(fh, **so))
             if op == "arch":
-                r = pe.find_architecture(fh)
+                r = pe.find_architecture(fh, **so)
                 if r not in (None, "x86", "x64"):
                     raise TypeError(repr(r))
                 return "ok " + (r or "none")
             if op == "stamps":
-                c, e = pe.find_compile_stamps(fh)
+                c, e = pe.find_compile_stamps(fh, **so)
                 return f"ok {oi(c)} {oi(e)}"
             if op == "mmz":
-                return "ok " + ob(pe.find_magic_mz(fh))
+                return "ok " + ob(pe.find_magic_mz(fh, **so))
             if op == "mpe":
-                return "ok " + ob(pe.find_magic_pe(fh))
-            p, a = pe.find_stage_prepend_append(fh)
+                return "ok " + ob(pe.find_magic_pe(fh, **so))
+            p, a = pe.find_stage_prepend_append(fh, **so)
             return f"ok {ob(p)} {ob(a)}"
         return _with_file(kind, data, run)
     raise AssertionError(line[:40])
